@@ -58,7 +58,7 @@ class Trans:
 
     def contrib(self, x):
         if self.enc == "Subset":
-            c = numpy.zeros(len(self.K) if self.K is not None else int(numpy.max(x)) + 1)
+            c = numpy.zeros(self.K.shape[-1] if self.K is not None else int(numpy.max(x)) + 1)
             numpy.add.at(c, numpy.asarray(x, dtype=int), 1.0)
             return c
         return numpy.asarray(x, dtype=float)
@@ -74,6 +74,9 @@ class Trans:
             return out
         if self.kind == "cons":          # inequality violation: amount by which the last latent value exceeds a threshold
             return numpy.array([max(0.0, float(latent[-1]) - self.thr)])
+        if self.kind == "groups":        # several constraint components: members allowed per group (often jointly infeasible)
+            c = self.contrib(x)
+            return numpy.maximum(self.K @ c - self.thr, 0.0)
         if self.kind == "plateau":       # coarse rounding -> many ties
             return numpy.round(latent[: self.nout], 0)
         raise KeyError(self.kind)
@@ -84,7 +87,7 @@ def make_problem(g, enc, nobj, n, k):
     cls = getattr(P, "EstimatedBreedingValue%sSelectionProblem" % enc)
     ntrait = max(nobj, int(g.integers(1, 4)))
     ebv = g.normal(size=(n, ntrait))
-    dcls = str(g.choice(["plain", "ties", "pairwise", "plateau", "constrained", "constrained"]))
+    dcls = str(g.choice(["plain", "ties", "pairwise", "plateau", "constrained", "constrained", "multi-constraint", "multi-constraint"]))
     if dcls == "ties":
         ebv = numpy.round(ebv)
     K = None
@@ -99,6 +102,14 @@ def make_problem(g, enc, nobj, n, k):
     if dcls == "constrained":
         thr = float(numpy.quantile(-ebv[:, -1], 0.5)) * (1.0 if enc == "Subset" else 0.3)
         kw = dict(nineqcv=1, ineqcv_wt=numpy.array([1.0]), ineqcv_trans=Trans("cons", 1, thr=thr))
+    if dcls == "multi-constraint":
+        ng = int(g.integers(2, 4))
+        memb = g.integers(0, ng, n)
+        Gm = numpy.stack([(memb == j).astype(float) for j in range(ng)])
+        cap = float(g.choice([0.0, 1.0])) if enc != "Real" else 0.2
+        kw = dict(nineqcv=ng, ineqcv_wt=g.choice([1.0, 1.0, 2.0], ng), ineqcv_trans=Trans("groups", ng, K=Gm, thr=cap, enc=enc))
+        if g.random() < 0.5:
+            ebv = numpy.round(ebv)      # ties in the objective make equal-violation exchanges frequent
     wt = g.choice([1.0, 1.0, 2.0, -1.0], nobj) if g.random() < 0.3 else numpy.ones(nobj)
     if enc == "Subset":
         space = numpy.sort(g.choice(3 * n, n, replace=False)).astype("int64") if False else numpy.arange(n)
